@@ -24,3 +24,23 @@ func Point(name string) {
 		(*f)(name)
 	}
 }
+
+var failCallback atomic.Pointer[func(string) error]
+
+// SetFail installs (or with nil removes) the failure callback. Harness use only.
+func SetFail(f func(string) error) {
+	if f == nil {
+		failCallback.Store(nil)
+		return
+	}
+	failCallback.Store(&f)
+}
+
+// Fail marks a named failure-injection point: the harness may make the step that was just
+// performed (or is about to be performed) report an error.
+func Fail(name string) error {
+	if f := failCallback.Load(); f != nil {
+		return (*f)(name)
+	}
+	return nil
+}
